@@ -536,7 +536,28 @@ func traversalGuards(c *Ctx) {
 						}
 						for _, f := range condMembers(d, ifs.Cond, true, lk, "early-exit") {
 							if o := originOfIndex(d, f.m); f.present && o.kind == "roots" {
-								root = true
+								// every other conjunct is the exception for the start node: the
+								// looked-up identifier itself compared (!=) with something — not a
+								// condition that does not depend on the node at hand
+								okRest := true
+								for _, cj := range conjuncts(ifs.Cond) {
+									if id, isId := ast.Unparen(cj).(*ast.Ident); isId {
+										if _, isLk := lk[objOf(d.pkg, id)]; isLk {
+											continue
+										}
+									}
+									be, isBE := ast.Unparen(cj).(*ast.BinaryExpr)
+									if isBE && be.Op == token.NEQ && (sameKey(types.ExprString(be.X), f.key) || sameKey(types.ExprString(be.Y), f.key)) {
+										continue
+									}
+									if len(condMembers(d, cj, true, lk, "early-exit")) > 0 {
+										continue
+									}
+									okRest = false
+								}
+								if okRest {
+									root = true
+								}
 							}
 						}
 					}
